@@ -39,6 +39,13 @@ def c01_api(r, idx):
         if k == 4:
             s = sub.service("AdminService", host=api.host)
             s.rpc("GetAdminNote", rq.fqn, m.fqn, http=("get", "/v1/{name=adminNotes/*}"), sigs=["name"])
+            # a PAGED rpc of the sub-package service whose request message lives in the parent package (third file)
+            pc = File(f"{api.dir}/paging_common.proto", api.package, deps=list(apigen.STD_DEPS))
+            lq = pc.message("ListAdminNotesRequest"); lq.field("parent", 1, "string").field("page_size", 2, "int32").field("page_token", 3, "string")
+            sub.dep(pc.proto.name)
+            lr = sub.message("ListAdminNotesResponse"); lr.field("notes", 1, m.fqn, repeated=True).field("next_page_token", 2, "string")
+            s.rpc("ListAdminNotes", lq.fqn, lr.fqn, http=("get", "/v1/{parent=projects/*}/adminNotes"), sigs=["parent"])
+            extra_files.append(pc)
             feats.append("sub-package-service")
         api.main.dep(sub.proto.name)
         first = api.main.proto.message_type[0]
@@ -236,7 +243,14 @@ def run_case(args):
     subs = sorted({re.sub(r"/services/.*$", "", n).replace("/", ".") for n in names
                    if main and n.startswith(main.replace(".", "/") + "/") and "/services/" in n and not n.startswith(main.replace(".", "/") + "/services/")})
     if subs and probe["import_ok"]:
-        sub_probe = gen.impl("c01_probe", {"root": root, "packages": [], "main": subs[0], "clients": clients})
+        for sub in subs:
+            sp = gen.impl("c01_probe", {"root": root, "packages": [], "main": sub, "clients": clients})
+            if sub_probe is None:
+                sub_probe = sp
+            else:
+                for k, v in sp["clients"].items():
+                    if v and not sub_probe["clients"].get(k):
+                        sub_probe["clients"][k] = v
     if not probe["import_ok"]:
         res["violations"].append((f"emitted package does not import: {probe['errors'][:3]}", case, None))
     else:
@@ -327,6 +341,22 @@ def run(ctx):
             continue
         jobs.append((4000 + k, 0, req, {"transport": ["grpc+rest", "grpc", "rest"][k], "params": [], "yaml": None, "ads": False}, [],
                      [sv.name for f in api.files for sv in f.proto.service], list(api.info["features"]) + ["package-shape=" + pk[0]]))
+    # an API whose files all live in sibling sub-packages that share leading letters (no file in the root package)
+    for k, (sa, sb) in enumerate([("alpha", "apple"), ("enums", "errors")]):
+        fa = File(f"google/example/v1/{sa}/{sa}.proto", f"google.example.v1.{sa}", deps=list(apigen.STD_DEPS))
+        ta = fa.message("Thing"); ta.field("name", 1, "string")
+        fb = File(f"google/example/v1/{sb}/{sb}.proto", f"google.example.v1.{sb}", deps=list(apigen.STD_DEPS) + [fa.proto.name])
+        qb = fb.message("GetOtherRequest"); qb.field("name", 1, "string")
+        ob = fb.message("Other"); ob.field("name", 1, "string").field("thing", 2, ta.fqn)
+        sv = fb.service("Others", host="others.example.com")
+        sv.rpc("GetOther", qb.fqn, ob.fqn, http=("get", "/v1/{name=others/*}"), sigs=["name"])
+        try:
+            req = apigen.request([fa, fb])
+        except apigen.Invalid:
+            ctx.features["invalid-candidate"] += 1
+            continue
+        jobs.append((5000 + k, 0, req, {"transport": ["grpc+rest", "grpc"][k], "params": [], "yaml": None, "ads": False}, [], ["Others"],
+                     ["only-sibling-sub-packages-sharing-leading-letters"]))
     # a dependency package that shares a textual prefix with the API package (foo.v1beta1 used by foo.v1); the library is
     # given its own namespace so that the dependency's pb2 package does not sit inside the emitted unversioned package
     for k, (tpkg, dpkg) in enumerate([("google.example.v1", "google.example.v1beta1"), ("acme.things.v2", "acme.things.v2alpha")]):
